@@ -49,8 +49,8 @@ ProducerCfgs(codec, sc) ==
 
 ProducerRelevant(p) ==
   /\ (p.src \notin StreamSrc => p.sc = Plain(Len(p.sc.content)))
-  /\ (p.src \notin {"binm", "textm"} => ~p.merr)
-  /\ (p.src \in {"nil", "nilpstring", "nilpbytes", "nilpstruct"} => p.sc = Plain(0))
+  /\ (p.src \notin {"binm", "textm", "dualtm"} => ~p.merr)
+  /\ (p.src \in {"nil", "nilpstring", "nilpbytes", "nilpstruct", "array0"} => p.sc = Plain(0))
   /\ (p.wkind = "nil" => p.wacc = -1)
   /\ (p.ekind \notin {"none", "custom"} => p.src \in {"reader", "readcloser"} /\ p.wkind # "nil" /\ p.wacc = -1)
   \* the harness' WriterTo does not deliver data together with its error
